@@ -395,8 +395,11 @@ func (w *World) afterStep(u *Upload, ev sim.Event) {
 		if u.Variant != "good" {
 			w.fatalf("upload #%d with variant %q (size or checksum mismatch / source error) was acknowledged", u.N, u.Variant)
 		}
-		if u.ClosedAtStart {
-			w.fatalf("upload #%d started after the final synchronisation began was acknowledged instead of being refused with UNAVAILABLE", u.N)
+		if u.ClosedAtStart && u.Block != nil {
+			// (An upload of content that already exists only adds an index
+			// entry under a synchronised epoch; acknowledging that is not
+			// "acknowledged and lost".)
+			w.fatalf("upload #%d, which allocated space after the final synchronisation began, was acknowledged instead of being refused with UNAVAILABLE", u.N)
 		}
 		if u.Block != nil && u.Block.Popped {
 			w.fatalf("upload #%d was acknowledged although its target block (absolute #%d) had been rotated away during the write", u.N, u.Block.Abs)
